@@ -618,7 +618,7 @@ where
 {
     /// Generates a new set of keys and registers those keys with the parent store.
     pub fn update_keys(&self) {
-        let inner_path = self.path().into_iter().collect();
+        let inner_path = self.path().into_iter().collect::<StorePath>();
         let keys = self
             .inner
             .keys()
@@ -629,13 +629,22 @@ where
         // read-lock on the key map to get the field while the first field
         // is still holding the write-lock in the closure below
         let latest = self.latest_keys();
-        keys.with_field_keys(
-            inner_path,
-            |keys| {
-                keys.update(latest);
-            },
-            || self.latest_keys(),
-        );
+        let removed = keys
+            .with_field_keys(
+                inner_path.clone(),
+                |keys| keys.update(latest),
+                || self.latest_keys(),
+            )
+            .unwrap_or_default();
+
+        // the path segment of a removed key is given to a key that is added later: forget
+        // the keys of the keyed fields nested in the removed items, or the new item at
+        // that path would be read and written through the key map of the old one
+        for segment in removed {
+            let mut item_path = inner_path.clone();
+            item_path.push(segment);
+            keys.remove_below(&item_path);
+        }
     }
 }
 
